@@ -738,7 +738,11 @@ qb_log_filter_ctl2(int32_t t, enum qb_log_filter_conf c,
 		   uint8_t high_priority, uint8_t low_priority)
 {
 	struct qb_log_filter *new_flt = NULL;
+	struct qb_log_filter *flt;
+	struct qb_list_head *remaining = NULL;
 	regex_t *regex = NULL;
+	regex_t removed_regex;
+	int32_t removed_regex_valid = QB_FALSE;
 	struct callsite_section *sect;
 	int32_t rc;
 
@@ -770,9 +774,42 @@ qb_log_filter_ctl2(int32_t t, enum qb_log_filter_conf c,
 
 	if (new_flt && new_flt->regex) {
 		regex = new_flt->regex;
+	} else if ((c == QB_LOG_FILTER_REMOVE || c == QB_LOG_TAG_CLEAR) &&
+		   (type == QB_LOG_FILTER_FUNCTION_REGEX ||
+		    type == QB_LOG_FILTER_FILE_REGEX ||
+		    type == QB_LOG_FILTER_FORMAT_REGEX) &&
+		   strcmp(text, "*") != 0 &&
+		   regcomp(&removed_regex, text, 0) == 0) {
+		/* the stored filter is gone, but its expression is
+		 * needed to find the callsites it had selected */
+		removed_regex_valid = QB_TRUE;
+		regex = &removed_regex;
 	}
 	qb_list_for_each_entry(sect, &callsite_sections, list) {
 		_log_filter_apply(sect, t, c, type, text, regex, high_priority, low_priority);
+	}
+	if (removed_regex_valid) {
+		regfree(&removed_regex);
+	}
+
+	/*
+	 * A callsite that matched the removed filter may still be selected
+	 * by one of the filters that remain: apply those again.
+	 */
+	if (c == QB_LOG_FILTER_REMOVE) {
+		remaining = &conf[t].filter_head;
+	} else if (c == QB_LOG_TAG_CLEAR) {
+		remaining = &tags_head;
+	}
+	if (remaining) {
+		qb_list_for_each_entry(flt, remaining, list) {
+			qb_list_for_each_entry(sect, &callsite_sections, list) {
+				_log_filter_apply(sect, flt->new_value, flt->conf,
+						  flt->type, flt->text, flt->regex,
+						  flt->high_priority,
+						  flt->low_priority);
+			}
+		}
 	}
 	pthread_rwlock_unlock(&_listlock);
 	return 0;
